@@ -417,7 +417,23 @@ fn check_bep42(tier: Tier, chunk: usize, chunks: usize, out: &mut Partial) {
             [192, 167, 255, 255], [192, 168, 0, 0], [192, 168, 255, 255], [192, 169, 0, 0],
             [0, 0, 0, 0],
         ];
-        for e in edges {
+        let more: [[u8; 4]; 10] = [[0, 0, 0, 1], [255, 255, 255, 255], [224, 0, 0, 1], [240, 0, 0, 1], [100, 64, 0, 1], [192, 0, 2, 1], [198, 18, 0, 1], [172, 200, 1, 1], [1, 1, 1, 1], [255, 255, 255, 254]];
+        for e in edges.iter().chain(more.iter()) {
+            // an id made for an address is valid for it - at the boundary addresses too
+            let ip = Ipv4Addr::from(*e);
+            for draw in 0..16 {
+                out.add("evaluations", 1);
+                let id = Id::from_ipv4(ip);
+                if !id.is_valid_for_ip(ip) || !bep42_valid(id.as_bytes(), ip) {
+                    out.violation(
+                        "bep42/from_ipv4-invalid/boundary-address",
+                        format!("Id::from_ipv4({ip}) (draw {draw}) is not valid for that ip"),
+                        json!({"kind":"from_ipv4","ip":ip.to_string(),"id":hex(id.as_bytes())}),
+                    );
+                }
+            }
+        }
+        for e in edges.iter().chain(more.iter()).copied() {
             let ip = Ipv4Addr::from(e);
             for &f in &FILLS {
                 for r in [0u8, 1, 7, 0x55] {
